@@ -1101,6 +1101,30 @@ fn corpus_projects() -> Vec<(&'static str, ProjSpec)> {
                 mods: vec![module(s(b"M1", "M1"), s(&[0xEF, 0xBB, 0xBF, 0x41, 0xE9], "ï»¿Aé"))],
             },
         ),
+        // names and text that begin with the code page's OWN byte-order mark: U+FEFF is a character of the name
+        // (the compound-file directory keeps it), so it must survive decoding; a reference named exactly U+FEFF is
+        // a named reference
+        (
+            "own-bom-65001",
+            ProjSpec {
+                cp: 65001,
+                compat: false,
+                refs: vec![
+                    RefSpec { name: s(&[0xEF, 0xBB, 0xBF, 0x42], "\u{FEFF}B"), kind: 0, desc: s(b"d", "d"), path: s(b"C:\\p", "C:\\p") },
+                    RefSpec { name: s(&[0xEF, 0xBB, 0xBF], "\u{FEFF}"), kind: 0, desc: s(b"e", "e"), path: s(b"C:\\q", "C:\\q") },
+                ],
+                mods: vec![module(s(&[0xEF, 0xBB, 0xBF, 0x4D], "\u{FEFF}M"), s(&[0xEF, 0xBB, 0xBF, 0x41, 0xC3, 0xA9], "\u{FEFF}Aé"))],
+            },
+        ),
+        (
+            "own-bom-1200",
+            ProjSpec {
+                cp: 1200,
+                compat: true,
+                refs: vec![],
+                mods: vec![module(s(&[0xFF, 0xFE, 0x4D, 0x00], "\u{FEFF}M"), s(&[0xFF, 0xFE, 0x41, 0x00, 0x16, 0x04], "\u{FEFF}AЖ"))],
+            },
+        ),
     ]
 }
 
